@@ -79,6 +79,44 @@ def inverted_limits_refused(ctx):
                   f'compares the value with the pair: write_<p>_limits((60, 40)) is accepted (order-checking types: {sorted(x.rpartition(".")[2] for x in oc)})', sd)
 
 
+@rule('C18.R2c', min_instances=1)
+def limit_check_is_installed_whatever_a_parent_defines(ctx):
+    """wherever HasAccessibles installs the automatic limit check (`setattr(base, 'check_<p>', <function calling checkLimits>)`):
+    the only reason to skip it is that THIS class already has a check_<p> of its own (`cname not in base.__dict__`).  A test
+    that also sees inherited hooks (hasattr / getattr) drops the limit check whenever a parent class has a hand-written
+    check_<p> and a subclass adds <p>_min / <p>_max / <p>_limits: the dynamic limits are never enforced"""
+    m = ctx.m
+    ci = m.cls(roles.HASACC)
+    n = 0
+    for f in ci.methods.values():
+        for c in [x for x in ast.walk(f.node) if isinstance(x, ast.Call) and dotted(x.func) == 'setattr' and len(x.args) == 3]:
+            fn = c.args[2]
+            body = None
+            if isinstance(fn, ast.Lambda):
+                body = fn
+            elif isinstance(fn, ast.Name):
+                body = next((d for d in ast.walk(f.node) if isinstance(d, ast.FunctionDef) and d.name == fn.id), None)
+            if body is None or not any(isinstance(x, ast.Call) and call_attr(x) == 'checkLimits' for x in ast.walk(body)):
+                continue
+            n += 1
+            ctx.analysed(f)
+            guards = [a for a in ancestors(c) if isinstance(a, ast.If)]
+            inherited = [g for g in guards if any(isinstance(x, ast.Call) and dotted(x.func) in ('hasattr', 'getattr') and len(x.args) >= 2 and src(x.args[1]) == src(c.args[1])
+                                                  for x in ast.walk(g.test))]
+            # a guard clause `if hasattr(base, cname): continue` before the setattr counts as well
+            fcfg = CFG(f.node, m, f.module) if not inherited else None
+            if fcfg is not None and fcfg.node_of(c):
+                side = sides_with_fact(fcfg, lambda a, tv: not tv and isinstance(a, ast.Call) and dotted(a.func) in ('hasattr', 'getattr') and len(a.args) >= 2
+                                       and src(a.args[1]) == src(c.args[1]))
+                if set(fcfg.node_of(c)) <= side:
+                    inherited = [c]
+            ctx.check(not inherited, f'{f.qualname}:generated check is not suppressed by an inherited hook', c, 'installed unless the class itself defines the hook',
+                      f'`{src(c)[:80]}` is skipped when `{src(inherited[0].test) if inherited and isinstance(inherited[0], ast.If) else "hasattr(...)"}` - which is also true for a '
+                      'check hook inherited from a parent: limits added in a subclass are not enforced, requests outside the current limits reach the driver', f)
+    if not n:
+        raise AnchorMissing('installation of the automatic limit check (setattr(..., <function calling checkLimits>)) not found in HasAccessibles')
+
+
 @rule('C18.R2', min_instances=3)
 def automatic_limit_checks(ctx):
     """generated check_<p> for every Limit postfix; calls checkLimits; MRO-wide collection"""
